@@ -10,7 +10,7 @@ import sys
 import tempfile
 from typing import Any, Dict, List, Optional, Tuple
 
-sys.path.insert(0, "/repo/src")
+sys.path.insert(0, __import__("os").environ.get("VF_REPO", "/repo") + "/src")
 
 # the documented native type names: (size, signed, class)  -- written from the C / RTMA meaning of the
 # names, independently of the five tables in the code under test
@@ -203,7 +203,7 @@ def compile_all(root_yaml: str, out: str, name: str = "gen", import_coredefs: bo
 PY_PROBE = r'''
 import sys, json, ctypes, importlib.util, logging
 logging.disable(logging.CRITICAL)
-sys.path.insert(0, "/repo/src")
+sys.path.insert(0, __import__("os").environ.get("VF_REPO", "/repo") + "/src")
 import warnings; warnings.simplefilter("ignore")
 spec = importlib.util.spec_from_file_location(sys.argv[2], sys.argv[1])
 mod = importlib.util.module_from_spec(spec); sys.modules[sys.argv[2]] = mod
